@@ -37,6 +37,9 @@ var vsStatements = []string{
 	"let d: $Device = $Device;",
 	"dim(1);",
 	"let r = { return; };",
+	"",
+	"{}",
+	"{};",
 	"println($Device.b);",
 	"$Device.b = 3;",
 }
@@ -68,6 +71,13 @@ var vsContexts = []string{
 	"fn main() { if 2 < 1 { println(0); } else { %S if 1 < 2 { println(1); } } }",
 	"fn main() { let v = match 1 { 1 => { %S 5 }, _ => 6 }; println(v); }",
 	"fn main() { let v = try { %S 1 } catch e { 2 }; println(v); }",
+	"let g = { %S };\nfn main() { }",
+	"pub let g = [1, { %S }];\nfn main() { }",
+	"let g = -{ %S };\nfn main() { }",
+	"let g = new { k: { %S } };\nfn main() { }",
+	"let g = 1 + { %S };\nfn main() { }",
+	"let g = ({ %S }) as int;\nfn main() { }",
+	"fn main() { let e = { %S }; }",
 }
 
 const vsPrelude = "import trigger minute from triggers;\nimport trigger message from triggers;\nimport templ FooFeature from templates;\n" +
@@ -82,6 +92,13 @@ func VerifHarness_StmtContexts() {
 	ci := errors.VerifNdIntRange("ctx", 0, len(vsContexts)-1)
 	errors.VerifTag("stmt", vsStatements[si])
 	errors.VerifTag("ctx", fmt.Sprint(ci))
+	if vsContexts[ci] == "fn main() { let e = { %S }; }" {
+		// class of the program: a let binds the value of a block that has no trailing expression (type null)
+		errors.VerifUntag("stmt")
+		errors.VerifUntag("ctx")
+		errors.VerifTag("__stmt", vsStatements[si])
+		errors.VerifTag("class", "let-binds-a-null-typed-block")
+	}
 	code := vsPrelude + vsReplace(vsContexts[ci], vsStatements[si])
 	verifDebug("program", code)
 	var an verifAnalysis
